@@ -50,7 +50,7 @@ def run(rep, tier):
     # sessions of the real clients that install their keys after discovery: every later request must be encrypted
     # exactly as the statement says
     v3hist.discovered_stage(rep, G, "C11", 120 if tier == "quick" else 2500, True, True,
-                            ("priv-flag-clear", "privacy-mismatch", "des-length", "padding-too-long", "flags"))
+                            ("priv-flag-clear", "privacy-mismatch", "des-length", "padding-too-long", "flags", "request-not-well-formed"))
 
 
 def replay(rep, case, body=None):
